@@ -268,3 +268,12 @@ Theorem C03_PI_Z1Z1 : forall K (O : Ops K), Laws O -> forall r rc g, kmul O r rc
   eig_unitary O (tbl_PI_Z1Z1 O) r rc g = spec_PI O 2 true 2 true r rc g.
 Proof. exact @eig_PI_Z1Z1. Qed.
 Print Assumptions C03_PI_Z1Z1.
+
+(* non-vacuity: the ring laws assumed by every theorem above hold in the exact instance Q(zeta_8),
+   and a unit parameter exists there (r = zeta_8, i.e. exponent t = 1/2). *)
+From VF Require Import Base.K8.
+From Coq Require Import Qcanon.
+Open Scope Qc_scope.
+Theorem C03_laws_inhabited : Laws K8Ops /\ kmul K8Ops (mk8 0 1 0 0) (mk8 0 0 0 (-(1))) = k1 K8Ops.
+Proof. split; [exact K8Laws | vm_compute; reflexivity]. Qed.
+Print Assumptions C03_laws_inhabited.
